@@ -28,7 +28,7 @@ def main():
             if tests:
                 r = sh("cd /repo && /venv/bin/python -m pytest -q -x -p no:cacheprovider --timeout=900 --deselect tests/test_e2e.py 2>&1 | tail -2")
                 t = " tests:" + r.stdout.strip().splitlines()[-1][:60]
-            r = sh("cd %s && ./check %s quick" % (R, m["property"]))
+            r = sh("cd %s && PYVC_EVIDENCE_DIR=/tmp/pyvc-mutant-evidence ./check %s quick" % (R, m["property"]))
             v = [l for l in r.stdout.splitlines() if l.startswith("VIOLATION")]
             res.append((m["id"], "exit=%d violations=%d%s %s" % (r.returncode, len(v), t, "" if r.returncode == 1 else "  <-- MISSED: " + r.stdout.strip().splitlines()[-1][:200])))
         finally:
